@@ -555,7 +555,7 @@ class Fn:
 
     def __init__(self, path, select, name, contract="", nth=0, within=None, constexpr=(), subs=(), sig_subs=(),
                  calls=None, loops=None, piece=None, canary=None, throw_ret="0", pp_defines=(), keep_lambdas=False,
-                 prologue=""):
+                 prologue="", scopes=()):
         self.path, self.select, self.name, self.contract = path, select, name, contract
         self.nth, self.within = nth, within
         self.constexpr, self.subs, self.sig_subs = list(constexpr), list(subs), list(sig_subs)
@@ -564,6 +564,7 @@ class Fn:
         self.piece, self.canary, self.throw_ret = piece, canary, throw_ret
         self.pp_defines = pp_defines
         self.prologue = prologue
+        self.scopes = list(scopes)   # R4: class names whose `Name::` qualification is dropped
 
 
 def extract_fn(fn, mutate=False):
@@ -573,6 +574,13 @@ def extract_fn(fn, mutate=False):
     sig, body = loc.sig, loc.body
     body = resolve_preprocessor(body, fn.pp_defines)
     sig = r1_signature(sig, log)
+    k_sc = 0
+    for sc in fn.scopes:
+        sig, k1 = re.subn(r"\b" + re.escape(sc) + r"\s*(<[^<>]*>)?\s*::\s*", "", sig)
+        body, k2 = re.subn(r"\b" + re.escape(sc) + r"\s*(<[^<>]*>)?\s*::\s*", "", body)
+        k_sc += k1 + k2
+    if fn.scopes:
+        log.note("R4.scope", k_sc)
     # constructor initialiser lists are not supported
     if re.search(r"\)\s*:\s*\w+\s*\(", sig):
         raise ExtractionError(f"{fn.name}: constructor initialiser lists are not extractable")
@@ -581,6 +589,9 @@ def extract_fn(fn, mutate=False):
         if kind == "loop":
             _, body = loop_body(body, fn.piece[1])
             sig = fn.piece[2]
+            # live-ins passed by pointer: every use becomes (*name)
+            for nm in (fn.piece[3] if len(fn.piece) > 3 else ()):
+                body = re.sub(r"(?<![\w.>])" + re.escape(nm) + r"\b(?!\s*\()", f"(*{nm})", body)
         elif kind == "slice":
             body = "{\n" + slice_between(body, fn.piece[1], fn.piece[2]) + "\n}"
             sig = fn.piece[3]
